@@ -252,6 +252,7 @@ package keeper
 // call told the distribution module to hand out (community pool + validator rewards + proposer remainder) is, denom
 // by denom, exactly what it moved into the distribution account - and no subtraction ever goes negative (the
 // begin-blocker cannot panic on rounding).
+//@ spec rewardable(s Store, o OtherState, v abci.VoteInfo) Bool = types.consErr(o, v.Validator.Address) == nil && bech32ok(ext("ValidatorI.GetOperator", types.consVal(o, v.Validator.Address))) && vstatus(s, bech32addr(ext("ValidatorI.GetOperator", types.consVal(o, v.Validator.Address)))).IsActive
 // Range assumption on CometBFT vote infos: powers between 0 and 2^50, at most 4096 votes.
 //@ func (k Keeper) AllocateTokens
 //@ may_panic calls
@@ -282,6 +283,11 @@ package keeper
 //@ assert after reward: forall d Str :: { ext("DecCoins.AmountOf", reward, d) } ext("DecCoins.AmountOf", reward, d) <= ext("DecCoins.AmountOf", remaining, d)
 //@ assert after remaining#2: forall d Str :: { ext("DecCoins.AmountOf", remaining, d) } ext("DecCoins.AmountOf", remaining, d) * totalPower >= ext("DecCoins.AmountOf", oracleReward, d) * (totalPower - psumP(toReward, #i) - each.power)
 //@ assert after remaining#2: psumP(toReward, #i + 1) == psumP(toReward, #i) + each.power
+// C14 "pays only active participants" has a converse the block reward relies on: EVERY voter of the previous block that the
+// staking module knows and that is oracle-active takes part - an unknown consensus address (a validator removed since) is
+// skipped, it does not end the scan
+//@ loop 0: invariant forall i :: 0 <= i && i < #i && rewardable(Store_oracle, Other, previousVotes[i]) ==> (exists j :: 0 <= j && j < len(toReward) && toReward[j].val == types.consVal(Other, previousVotes[i].Validator.Address) && toReward[j].power == previousVotes[i].Validator.Power)
+//@ assert before feeCollector: forall i :: 0 <= i && i < len(previousVotes) && rewardable(Store_oracle, Other, previousVotes[i]) ==> (exists j :: 0 <= j && j < len(toReward) && toReward[j].val == types.consVal(Other, previousVotes[i].Validator.Address) && toReward[j].power == previousVotes[i].Validator.Power)
 //@ loop 0: invariant forall j :: 0 <= j && j < len(toReward) ==> (exists i :: 0 <= i && i < #i && toReward[j].power == previousVotes[i].Validator.Power)
 //@ loop 0: invariant len(toReward) <= #i
 //@ loop 0: invariant 0 <= totalPower && totalPower <= #i * 1125899906842624
@@ -429,3 +435,21 @@ package keeper
 //@ writers ResultStoreKey: Keeper.SetResult
 //@ writers SigningResultStoreKey: Keeper.SetSigningResult
 //@ writers ValidatorStatusStoreKey: Keeper.SetValidatorStatus
+
+// ---- read-only list getters (iterator + decode loops): results not modelled, no state written -------------------------
+// (so that a caller which uses one of them stays analysable: the list is an arbitrary well-typed value)
+//@ func (k Keeper) GetAllDataSources
+//@ trusted
+//@ func (k Keeper) GetAllOracleScripts
+//@ trusted
+
+// C13: a created data source is filed under the next id with the owner, the treasury and the fee the message names - the
+// treasury is the account fees are paid to (CollectFee), the owner the one who may edit it: not the other way round
+//@ spec dsCount(s Store) Int = u64of(s[types.DataSourceCountStoreKey])
+//@ func (k msgServer) CreateDataSource
+//@ may_panic calls
+//@ modifies Store_oracle, msg
+//@ requires len(Store_oracle[types.DataSourceCountStoreKey]) >= 8 && dsCount(Store_oracle) < MaxUint64
+//@ ensures err == nil ==> bech32ok(msg.Owner) && bech32ok(msg.Treasury) && dsCount(Store_oracle) == old(dsCount(Store_oracle)) + 1
+//@ ensures err == nil ==> dsAt(Store_oracle, dsCount(Store_oracle)).Owner == addrstr(bech32addr(msg.Owner)) && dsAt(Store_oracle, dsCount(Store_oracle)).Treasury == addrstr(bech32addr(msg.Treasury)) && dsAt(Store_oracle, dsCount(Store_oracle)).Fee == msg.Fee
+//@ ensures err != nil ==> Store_oracle == old(Store_oracle)
